@@ -451,7 +451,8 @@ func sortStrings(xs []string) {
 // generators
 
 type Gen struct {
-	r *rand.Rand
+	r    *rand.Rand
+	keys [][]byte // overrides the default key alphabet
 }
 
 var keyAlphabet = []string{"a", "b", "foo", "k1", "key-7", "zz"}
@@ -480,7 +481,12 @@ func (g *Gen) TTL(now int64) uint32 {
 	}
 }
 
-func (g *Gen) Key() []byte { return []byte(keyAlphabet[g.r.Intn(len(keyAlphabet))]) }
+func (g *Gen) Key() []byte {
+	if g.keys != nil {
+		return g.keys[g.r.Intn(len(g.keys))]
+	}
+	return []byte(keyAlphabet[g.r.Intn(len(keyAlphabet))])
+}
 
 func (g *Gen) Flags() uint32 {
 	switch g.r.Intn(4) {
